@@ -395,6 +395,19 @@ func (f *fidRef) safelyRead(fn func() error) (err error) {
 	return fn()
 }
 
+// safelyReadParent is safelyRead on the parent of f (f itself for a root).
+//
+// A rename changes f.parent, so it is only looked up once the rename lock is
+// held.
+func (f *fidRef) safelyReadParent(fn func() error) (err error) {
+	f.server.renameMu.RLock()
+	defer f.server.renameMu.RUnlock()
+	parent := f.maybeParent()
+	parent.pathNode.opMu.RLock()
+	defer parent.pathNode.opMu.RUnlock()
+	return fn()
+}
+
 // safelyWrite executes the given operation with the local path node locked in
 // a writable fashion. This implies some paths may change.
 func (f *fidRef) safelyWrite(fn func() error) (err error) {
